@@ -2,6 +2,7 @@ package protocol
 
 import (
 	"encoding/binary"
+	"errors"
 
 	"github.com/TarsCloud/TarsGo/tars/protocol/codec"
 	"github.com/TarsCloud/TarsGo/tars/protocol/res/requestf"
@@ -51,6 +52,16 @@ func (p *TarsProtocol) ResponseUnpack(pkg []byte) (*requestf.ResponsePacket, err
 	packet := &requestf.ResponsePacket{}
 	err := packet.ReadFrom(codec.NewReader(pkg[4:]))
 	return packet, err
+}
+
+// ResponseID reads the request id of a response packet without decoding the rest of it.
+func (p *TarsProtocol) ResponseID(pkg []byte) (int32, error) {
+	var id int32
+	if len(pkg) < 4 {
+		return 0, errors.New("packet shorter than its length prefix")
+	}
+	err := codec.NewReader(pkg[4:]).ReadInt32(&id, 3, true)
+	return id, err
 }
 
 func (p *TarsProtocol) ParsePackage(rev []byte) (int, int) {
